@@ -62,6 +62,12 @@ TxViol(e) ==
           \cup Check("C03", "inner-message-well-formed", mm.ok /\ mm.rsAddr = 32)
           \cup Check("C06", "requester-is-remote-console-lun-0", mm.ok => (mm.rqLun = 0 /\ mm.rqAddr % 2 = 1))
           \cup Check("C06", "responder-lun-as-specified", (mm.ok /\ Has(exp, "rslun")) => mm.rsLun = exp.rslun)
+          \* C10: a retransmission is a complete, correctly addressed encoding of the same command
+          \cup (IF Has(exp, "prop") /\ exp.prop = "C10"
+                THEN Check("C10", "every-transmission-correctly-addressed",
+                           w.ok /\ w.sid = info.bmcSid /\ Has(e, "authOK") /\ e.authOK /\ mm.ok /\ mm.rsAddr = 32 /\ mm.rqLun = 0 /\ mm.rqAddr % 2 = 1
+                           /\ (Has(exp, "rslun") => mm.rsLun = exp.rslun))
+                ELSE {})
           \cup Check("C03", "iv-fresh", Len(e.raw) >= 32 /\ Sub(e.raw, 16, 32) \notin ivs)
   ELSE LET w == ParseWrapper(e.raw, 0) IN
        Check("C09", "sessionless-null-session", w.ok /\ w.sid = <<0, 0, 0, 0>> /\ w.seq = <<0, 0, 0, 0>> /\ w.auth = 0 /\ w.enc = 0)
